@@ -46,7 +46,7 @@ def not_close(a, b, tol=TOL, abs_tol=None):
     """BoolT: |a - b| > tol*|b| (+ abs_tol).  The *negated* property for an equality claim."""
     a, b = P(a), P(b)
     d = T.p_sub(a, b)
-    if d.is_zero():
+    if d.is_zero() or T.rational_equal(a, b):
         return T.b_const(False)
     tolp = T.Poly.const(tol)
     if T.is_nonneg(b):
